@@ -99,4 +99,10 @@ CHECKS = {
         'note': 'The typing table is the specification (trusted). n-ary operators at arities 2 and 3; user-defined functions, datatypes, let and quantifier binders are covered only through the table-lookup schemas (variable of declared sort) - the construction of the tables by collect_information for let/quantifier binders is not under contract yet. Node.__eq__ used through its contract.',
         'technique': 'contract-based deductive verification: per-schema VCs from the real AST with inductive contracts for recursive calls, z3; native typed-term generator as bounded stand-in',
     },
+    'C17': {
+        'category': 'proof',
+        'text': 'Proved by z3 for every operand, width, index and environment: schematic accepted instances (opaque well-sorted operands, symbolic widths / indices / constant values) are pushed through the real filter and mutations of BoolDoubleNegation, BoolDeMorgan (arities 1-4), BoolEliminateFalseEquality (both orders), BoolXOREliminateBinary, BoolEliminateImplication, BoolNegateQuantifier (body an uninterpreted predicate), ArithmeticNegateRelation (six relations, Int and Real), BVDoubleNegation, BVReflexiveNand, BVIteToBVComp, BVElimBVComp, BvMergeExtend (chains of 2 and 3), BVExtractZeroExtend (all three index cases) and BVEvalExtend on (_ bvN w); both sides are denoted in z3 and shown to have equal sort and value; a cover obligation per schema guards against vacuity. Bounded (native evaluator, widths <= 4/5, all constants in the three notations, all indices, all assignments): BVNormalizeConstants, BVEvalExtend, BVExtractConstants, BVMergeReducedBW, InlineDefinedFuns (actuals mentioning formal names), LetSubstitution, RemoveDatatypeIdentity, FPShortSort and again every rewrite above.',
+        'note': 'The denotation (contracts/c17.py Den, harness/smt_eval.py) is the specification. Bit-vector laws used as axioms in the symbolic part (involution of bvnot/bvneg, idempotence of bvand, composition of sign extension, extraction from a value that fits in fewer bits) are validated exhaustively for small widths, not proved. Bit-string constant evaluation and inlining/let substitution are bounded, not proved (value preservation of inlining rests on C11 substitute, bounded there). BVZeroExtendPredicate on signed predicates is outside the anchored list.',
+        'technique': 'contract-based deductive verification: per-rewrite VCs from the real AST with a z3 denotation; native SMT-LIB evaluator as bounded stand-in',
+    },
 }
